@@ -40,7 +40,7 @@ func runC10(o opts) error {
 		return err
 	}
 	raw := runChildren("c10child", o.out, scns, func(i int, msg string) any {
-		r := &c10.Result{Returned: true, Leaked: []string{}, Stuck: []string{}, Orders: [][]int{}, BSent: []int{}, BGot: []int{}}
+		r := &c10.Result{Returned: true, Leaked: []string{}, Stuck: []string{}, Orders: [][]int{}, BSent: []int{}, BGot: []int{}, RWant: []int{}, RGot: []int{}}
 		if strings.HasPrefix(msg, "race:") {
 			r.Race = msg
 		} else {
@@ -62,11 +62,14 @@ func runC10(o opts) error {
 		if r.Orders == nil {
 			r.Orders = [][]int{}
 		}
+		if r.RWant == nil {
+			r.RWant, r.RGot = []int{}, []int{}
+		}
 		if r.BSent == nil {
 			r.BSent, r.BGot = []int{}, []int{}
 		}
 		ev := trace.Ev{"ev": "run", "returned": r.Returned, "what": r.What, "leaked": r.Leaked, "stuck": r.Stuck,
-			"orders": r.Orders, "bsent": r.BSent, "bgot": r.BGot, "panic": r.Panic, "race": r.Race}
+			"orders": r.Orders, "bsent": r.BSent, "bgot": r.BGot, "panic": r.Panic, "race": r.Race, "rwant": r.RWant, "rgot": r.RGot}
 		sink.Put(&trace.Scenario{Ord: i, Desc: sc, Note: r.Panic + r.Race + r.What, Sig: sc.Kind, Events: []trace.Ev{{"ev": "reset"}, ev}})
 	}
 	return sink.Close()
